@@ -159,6 +159,10 @@ def run(ctx):
                              "pre": pre["ids"], "err": None, "tab": TABLE, "objrepr": args.get("objrepr", "")}
                         try:
                             with time_limit(20):
+                                if rng.random() < 0.75:
+                                    # the object has been QUERIED before it is edited (raw values, summaries): whatever it
+                                    # memoised then must not survive an in-place edit
+                                    work.unscale(); project(work)
                                 res = execute(work, cls, op, args, form, mut, with_grp)
                             c["post"] = project(res)
                             if not (mut and op in lm.MUT):     # results of append/remove/incorp are validated but not continued from
